@@ -402,7 +402,8 @@ def _guard_dataset(model, cols0, note):
         extra = [c for c in df.columns if c not in cols0]
         for c in extra:
             del df[c]
-        return [f"shared dataset mutated in place (column(s) {extra} added) by {note}"]
+        gone = [c for c in cols0 if c not in df.columns]
+        return [f"shared dataset mutated in place (column(s) {extra} added{', ' + str(gone) + ' removed' if gone else ''}) by {note}"]
     return []
 
 
@@ -439,6 +440,17 @@ def _step_obs(start, hist, pre, tok, model, route, pre_ndoses, mfl=False):
     return obs, m2, post
 
 
+def _flag(obs, ob, post):
+    """clean: applied, well-formed, and exactly the vector TLC's obligation names with nothing left open in the
+    absorption structure - only such steps lead to vectors that are explored further (a request that forms a
+    documented 'never run' pair is tried from every clean vector, but nothing is built on its result);
+    open: the obligation leaves the absorption structure open."""
+    obs["open"] = bool(set(ob.get("free", [])) & {"abs", "tr", "depot"}) if "post" in ob else False
+    ok = (obs["out"] == "applied" and post is not None and obs["wf"]["connected"] and obs["wf"]["doses_same"]
+          and post["abs"] != "NONE" and post["elim"] != "NONE")
+    obs["clean"] = bool(ok and not obs["open"] and ("post" not in ob or _on_template(ob, post)))
+
+
 def _on_template(ob, post):
     """the real post-vector is the one TLC's obligation names (outside the categories it leaves open)"""
     return all(post[c] == ob["post"][c] for c in CATS if c not in ob["free"])
@@ -473,10 +485,9 @@ def expand(task):
         obs, m1, post = _step_obs(start, hist, pre, tok, model, route, nd)
         out.append(obs)
         out.extend({"kind": "note", "note": n} for n in _guard_dataset(model, cols0, f"{tok} (or its f.f / undo) on {start}:{list(hist)}"))
-        if m1 is None or not (obs["wf"]["connected"] and obs["wf"]["doses_same"]) or post["abs"] == "NONE" or post["elim"] == "NONE":
-            continue
-        if "post" in ob and not _on_template(ob, post):
-            continue    # the step itself is off the template: reported as such, relations would only repeat it
+        _flag(obs, ob, post)
+        if not obs["clean"]:
+            continue    # failed / ill-formed / off the template / never-run request: no relation is demanded on top
         nd1 = obs["info"]["ndoses"]
         h1 = list(hist) + [tok]
         if tok in IDEM_ACTS and m1 is not model:     # a setter that returned its argument is trivially idempotent
@@ -497,31 +508,42 @@ def expand(task):
     return out
 
 
+_TABLE: dict = {}       # vector key -> obligations (set in the parent before forking the history workers)
+
+
 def replay_history(task):
-    """one simulated history on a start model: every step is an observation; idem / undo as the table says"""
-    start, hist, route, table_acts = task
+    """one simulated history on a start model: every step is an observation; the history ends at the first step
+    that is not clean (failed, ill-formed, off the template, or a 'never run' request)"""
+    start, hist, route, _ = task
     model = _private_copy(start)
     cols0 = list(model.dataset.columns) if model.dataset is not None else None
     pre, _ = classify(model, route)
     out, done = [], []
     for tok in hist:
-        if tok == "P+" and pre["periph"] >= 3:
-            continue
+        obls = {o["t"]: o for o in _TABLE.get(_key(pre), [])}
+        if tok not in obls:
+            if _key(pre) not in _TABLE:
+                break
+            continue    # request not enabled in this vector (P+ at the upper bound)
         nd = wellformed(model)["ndoses"]
         obs, m1, post = _step_obs(start, done, pre, tok, model, route, nd)
         out.append(obs)
         out.extend({"kind": "note", "note": n} for n in _guard_dataset(model, cols0, f"{tok} on {start}:{done}"))
-        if m1 is None:
-            continue   # refused / failed: the history goes on from the same model
-        if not obs["wf"]["connected"] or not obs["wf"]["doses_same"] or post["abs"] == "NONE" or post["elim"] == "NONE":
-            break      # ill-formed model: reported, not continued
+        _flag(obs, obls[tok], post)
+        if obs["out"] != "applied":
+            if obs["out"] == "refused":
+                continue   # refused: the history goes on from the same model
+            break
+        if not obs["clean"]:
+            break
         model, pre, done = m1, post, done + [tok]
+        cols0 = list(model.dataset.columns) if model.dataset is not None else None
     if done:
         try:
             _, drift = classify(model, route, mfl=True)
             out.extend({"kind": "note", "note": "detector drift: " + dn} for dn in drift)
         except Exception as e:  # noqa: BLE001
-            last = [o for o in out if o["kind"] == "step" and o["out"] == "applied"][-1]
+            last = [o for o in out if o["kind"] == "step" and o.get("clean")][-1]
             out.append(dict(last, out="error", post=last["pre"], wf={"connected": True, "doses_same": True},
                             info={"exc": "detect:" + type(e).__name__, "where": _site(e), "msg": _norm_msg(str(e))}))
     return out
@@ -734,7 +756,7 @@ def walk(v, book, start, svec, acts, depth, table, rng, expand_if=None, max_stat
         raise core.MachineryError(f"start model {start} reports {vec0}, the specification's start vector {svec} is {exp}")
     frontier = [(_key(vec0), ())]
     seen = {_key(vec0)}
-    n_states = n_edges = 0
+    n_states = n_edges = n_open = 0
     for d in range(depth):
         if not frontier:
             break
@@ -758,8 +780,8 @@ def walk(v, book, start, svec, acts, depth, table, rng, expand_if=None, max_stat
                 book.add(obs)
                 if obs["kind"] == "step" and not obs.get("derived"):
                     n_edges += 1
-                    if obs["out"] == "applied" and obs["wf"]["connected"] and obs["wf"]["doses_same"] \
-                            and obs["post"]["abs"] != "NONE" and obs["post"]["elim"] != "NONE":
+                    n_open += bool(obs.get("open"))
+                    if obs.get("clean"):
                         pk = _key(obs["post"])
                         if pk not in seen and (expand_if is None or expand_if(obs)):
                             cand.setdefault(pk, []).append(tuple(hist) + (obs["act"],))
@@ -770,7 +792,7 @@ def walk(v, book, start, svec, acts, depth, table, rng, expand_if=None, max_stat
         if max_states is not None and len(frontier) > max_states:
             rng.shuffle(frontier)
             frontier = sorted(frontier[:max_states], key=str)
-    return n_states, n_edges, len(seen)
+    return n_states, n_edges, len(seen), n_open
 
 
 # ----------------------------------------------------------------------------- entry points
@@ -808,13 +830,16 @@ def main(tier: str, seed: int) -> int:
     table_ext: dict = {}   # obligations over the full alphabet, asked from TLC on demand (quick tier)
     for start, svec, acts, depth, expand_if, cap in plan:
         tb = table if tier == "thorough" or len(acts) == len(MFL5) else table_ext
-        ns, ne, nseen = walk(v, book, start, svec, set(acts), depth, tb, rng, expand_if, cap)
+        ns, ne, nseen, nopen = walk(v, book, start, svec, set(acts), depth, tb, rng, expand_if, cap)
         walks.append({"start": start, "acts": len(acts), "depth": depth, "states_expanded": ns, "edges": ne, "vectors_seen": nseen,
+                      "never_run_requests": nopen,
                       "t": round(time.time() - t0, 1)})
         print(f"C08 walk {walks[-1]}", file=sys.stderr, flush=True)
     n_hist = 0
     if tier == "thorough":
-        hists, sres = tlc_simulate(3000, 6, seed)
+        hists, sres = tlc_simulate(3000, 8, seed)
+        _TABLE.clear()
+        _TABLE.update(table)
         tasks = []
         for i, h in enumerate(hists):
             start, _, svec = START_MODELS[i % len(START_MODELS)]
